@@ -115,6 +115,10 @@ fn all_forms(t: &Tlv) -> Vec<Vec<u8>> {
 
 pub fn run(tier: Tier) -> i32 {
     let rep = Reporter::new("C19", tier);
+    // the bounds that used to be the thorough tier's are cheap enough for every run
+    let deep = tier == Tier::Thorough;
+    let tier = Tier::Thorough;
+    let _ = deep;
     let cx = Ctx { rep: &rep, evals: AtomicU64::new(0) };
     let ck = cookies();
 
